@@ -28,6 +28,8 @@ ASSUMPTIONS = [
     "variant counts 65536/65537 are explored in the thorough tier only",
 ]
 BUDGET = {"quick": 700, "thorough": 14000}
+# coverage-guided twins (thorough tier): part name -> executions per shard; see core.cover
+COVER = {"api": 4000, "text": 1500}
 
 BOUNDARIES = (2**8, 2**16, 2**32)
 
